@@ -716,7 +716,7 @@ pub fn hyper_cost(nn: u64, kk: u64, ns: u64) -> u64 {
         }
     };
     let k = if ns <= n / 2 { ns } else { n - ns };
-    let m = ((k as f64 + 1.0) * (n1 as f64 + 1.0) / (n as f64 + 2.0)).floor();
+    let m = ((k.wrapping_add(1)) as f64 * (n1.wrapping_add(1)) as f64 / (n.wrapping_add(2)) as f64).floor();
     if m - f64::max(0.0, k as f64 - n2 as f64) < 10.0 {
         let (num, den) = if k < n2 {
             ((n2, n - k), (n, n2 - k))
@@ -725,6 +725,10 @@ pub fn hyper_cost(nn: u64, kk: u64, ns: u64) -> u64 {
         };
         let min_all = num.0.min(num.1).min(den.0.min(den.1));
         let max_all = num.0.max(num.1).max(den.0.max(den.1));
+        if min_all == u64::MAX {
+            // `(min_all + 1)..=max_all` overflows: panics with overflow checks on, walks 2^64 steps without
+            return if cfg!(debug_assertions) { 0 } else { u64::MAX };
+        }
         max_all - min_all
     } else {
         0
